@@ -228,6 +228,59 @@ theorem kb_never_panics (doc : Doc) (digest : Nat) (tok : KbTok) (o : KbOpts) :
                           split at hx <;> (try split at hx) <;> (try split at hx) <;> simp_all
                     exact this _ hf
 
+/-! ## completeness: a key-binding JWT that meets every condition IS accepted -/
+
+/-- the converse of `kb_accepted_sound`: present, supported hash algorithm, typed as expected, the method found by the
+configured method id (else the kid) within the scope holds the key that signed, the claims deserialise, the digest is
+the one over the presented token, nonce / audience equal the expected ones when configured, the issuance time is a valid
+instant inside the configured window (not after the clock when no upper bound is configured) — then the key-binding
+JWT is accepted and its claims are handed back -/
+theorem kb_accepted_complete (doc : Doc) (digest : Nat) (tok : KbTok) (o : KbOpts) (c : KbClaims) (mid : Id) (m : Method)
+    (hp : tok.present = true) (hh : tok.hasherOk = true) (ht : tok.typ = some true)
+    (hmid : o.methodId = some mid ∨ (o.methodId = none ∧ tok.kid = some (some mid)))
+    (hr : resolveMethod doc (Query.ofId mid) o.scope = some m) (hb : m.body ≠ 0) (hs : m.body = tok.sigKey)
+    (hc : tok.claims = some c) (hd : c.sdHash = digest)
+    (hn : ∀ n, o.nonce = some n → c.nonce = n) (ha : ∀ a, o.aud = some a → c.aud = a)
+    (hrange : MIN ≤ c.iat ∧ c.iat ≤ MAX)
+    (he : ∀ e, o.earliest = some e → e ≤ c.iat) (hl : ∀ l, o.latest = some l → c.iat ≤ l)
+    (hnow : o.latest = none → c.iat ≤ o.now) :
+    validateKb doc digest tok o = .ok c := by
+  have hkm : kbMethodId tok o = .ok mid := by
+    unfold kbMethodId
+    rcases hmid with h | ⟨h1, h2⟩
+    · simp [h]
+    · simp [h1, h2]
+  have hchecks : Gen.C16.kbChecks = ["digest", "nonce", "aud", "iat", "earliest", "latest"] := rfl
+  have hfu : fromUnix c.iat = .ok c.iat := ((Props.C13.fromUnix_iff_range c.iat).1).2 hrange
+  have hfirst : firstErr digest c o Gen.C16.kbChecks = none := by
+    rw [hchecks]
+    have c1 : kbClaimCheck digest c o "digest" = none := by simp [kbClaimCheck, hd]
+    have c2 : kbClaimCheck digest c o "nonce" = none := by
+      unfold kbClaimCheck
+      cases hon : o.nonce with
+      | none => rfl
+      | some n => simp [(hn n hon)]
+    have c3 : kbClaimCheck digest c o "aud" = none := by
+      unfold kbClaimCheck
+      cases hoa : o.aud with
+      | none => rfl
+      | some a => simp [(ha a hoa)]
+    have c4 : kbClaimCheck digest c o "iat" = none := by simp [kbClaimCheck, hfu]
+    have c5 : kbClaimCheck digest c o "earliest" = none := by
+      unfold kbClaimCheck
+      cases hoe : o.earliest with
+      | none => rfl
+      | some e => have := he e hoe; simp; omega
+    have c6 : kbClaimCheck digest c o "latest" = none := by
+      unfold kbClaimCheck
+      cases hol : o.latest with
+      | none => have := hnow hol; simp; omega
+      | some l => have := hl l hol; simp; omega
+    simp [firstErr, c1, c2, c3, c4, c5, c6]
+  have hb' : ¬ tok.sigKey = 0 := hs ▸ hb
+  unfold validateKb
+  simp [hp, hh, ht, hkm, hr, hb, hb', hs, hc, hfirst]
+
 /-! ## non-vacuity -/
 
 def holder : Doc := ⟨2, [⟨⟨2, 0, some 1⟩, 21⟩], [], [], [], [], [], []⟩
